@@ -131,6 +131,7 @@ type Case struct {
 	Page    []PageObs      `json:"page,omitempty"`   // stream page: tunnel reads into windows of one scratch page
 	Hang    string      `json:"hang,omitempty"`
 	Crash   string      `json:"crash,omitempty"`
+	Skipped string      `json:"skipped,omitempty"` // not run: "hangs" (the stream was cut short after repeated hangs) | "budget" (the run's wall-clock budget was used up)
 }
 
 // ---- generation -----------------------------------------------------------
@@ -561,6 +562,19 @@ func genHistory(seed uint64, i int) Case {
 		g.calls(2, "hello")
 		g.early("hello")
 		g.early("read")
+		g.answerAll(false, false)
+		c.Steps = g.steps
+		return c
+	case 13: // a caller gives up; later calls; the peer then answers the abandoned call, late, and the others
+		c.Stream = "ctx"
+		g.calls(1, "hello")
+		a := g.takePending(0)
+		g.answered = g.answered[:len(g.answered)-1]
+		g.steps = append(g.steps, Step{Op: "cancel", K: a})
+		g.calls(1, "hello")
+		g.calls(1, "hello")
+		g.calls(1, "read")
+		g.frames([]FrameSpec{g.good(a)})
 		g.answerAll(false, false)
 		c.Steps = g.steps
 		return c
@@ -2156,7 +2170,12 @@ func main() {
 	child := flag.Bool("child", false, "child mode")
 	from := flag.Int("from", 0, "first case (child)")
 	mem := flag.Uint64("mem", 4<<30, "address-space limit of the child")
+	budget := flag.Int("budget", 0, "wall-clock budget of the whole run in seconds (0: none): cases not started by then are skipped")
+	deadline := flag.Int64("deadline", 0, "(child) unix time after which no further case is started")
 	flag.Parse()
+	if *budget > 0 && *deadline == 0 {
+		*deadline = time.Now().Unix() + int64(*budget)
+	}
 
 	var scripted []Case
 	if *script != "" {
@@ -2181,14 +2200,35 @@ func main() {
 	if *child {
 		hx.LimitMemory(*mem)
 		tap := rpcx.InstallLogTap()
+		// every hang costs one or more 10 s observation bounds: after four
+		// cases of a stream that hang, the rest of that stream is not run; and
+		// no case is started after the deadline of the whole run
+		const maxHangs = 4
+		hangs := map[string]int{}
 		for i := *from; i < *n; i++ {
 			c := gen(i)
+			skip := ""
+			if *deadline > 0 && time.Now().Unix() >= *deadline {
+				skip = "budget"
+			} else if hangs[c.Stream] >= maxHangs {
+				skip = "hangs"
+			}
+			if skip != "" {
+				c.Events, c.Frames, c.Callers = []Event{}, []SentFrame{}, []CallerObs{}
+				c.Skipped = skip
+				out.Emit(&c)
+				continue
+			}
 			runHistory(&c, tap)
+			if c.Hang != "" {
+				hangs[c.Stream]++
+			}
 			out.Emit(&c)
 		}
 		return
 	}
-	args := []string{"-seed", strconv.FormatUint(*seed, 10), "-n", strconv.Itoa(nhist), "-stress", strconv.Itoa(*nstress)}
+	args := []string{"-seed", strconv.FormatUint(*seed, 10), "-n", strconv.Itoa(nhist), "-stress", strconv.Itoa(*nstress),
+		"-deadline", strconv.FormatInt(*deadline, 10)}
 	if *script != "" {
 		args = append(args, "-script", *script)
 	}
